@@ -80,6 +80,39 @@ fn gen_soup(g: &mut Gen) -> String {
 
 /// Grammar-aware damage to a valid file.
 fn mutate(g: &mut Gen, text: &str) -> String {
+    // token-level damage first (one time in three): drop, duplicate or swap a
+    // whitespace-separated token of one line, or cut the line after a token -
+    // directives and records with the wrong number of fields
+    let mut text = text.to_string();
+    if g.chance(1, 3) {
+        let mut lines: Vec<String> = text.split('\n').map(|l| l.to_string()).collect();
+        if !lines.is_empty() {
+            let li = g.below(lines.len());
+            let mut toks: Vec<String> = lines[li].split(' ').map(|t| t.to_string()).collect();
+            if !toks.is_empty() {
+                let ti = g.below(toks.len());
+                match g.below(4) {
+                    0 => {
+                        toks.remove(ti);
+                    }
+                    1 => {
+                        let t = toks[ti].clone();
+                        toks.insert(ti, t);
+                    }
+                    2 => {
+                        let tj = g.below(toks.len());
+                        toks.swap(ti, tj);
+                    }
+                    _ => toks.truncate(ti + 1),
+                }
+                lines[li] = toks.join(" ");
+            }
+            text = lines.join("\n");
+        }
+        if g.bool() {
+            return text;
+        }
+    }
     let mut chars: Vec<char> = text.chars().collect();
     let k = g.range(1, 3);
     for _ in 0..k {
